@@ -128,6 +128,8 @@ func verifyFunction(w *World, fn *ssa.Function, spec *FuncSpec) (vc *VC) {
 			}
 		case *types.Slice:
 			vc.assume(fmt.Sprintf("(< (sl_ref %s) %s)", n, compInit("$alloc")))
+		case *types.Chan, *types.Map:
+			vc.assume(fmt.Sprintf("(< %s %s)", n, compInit("$alloc")))
 		}
 		if vc.isPooledPtr(p.Type()) {
 			// pooled parameters are owned on entry (obligation at every call site)
